@@ -11,14 +11,28 @@ Import ListNotations.
 
 (* Types.  MachineInteger: 64-bit two's complement (lib sal_mint.as, Machine SInt);
    Integer: unbounded (sal_int.as, BInt).                                            *)
+(* element types of lists *)
+Inductive bty : Type := BMI | BInt | BBool | BStr.
+
 Inductive ty : Type :=
-| TMI | TInt | TBool | TStr.
+| TMI | TInt | TBool | TStr
+| TList (b : bty).                      (* List(T), sal_list.as: immutable use only *)
+
+Definition bty_eqb (a b : bty) : bool :=
+  match a, b with
+  | BMI, BMI | BInt, BInt | BBool, BBool | BStr, BStr => true
+  | _, _ => false
+  end.
 
 Definition ty_eqb (a b : ty) : bool :=
   match a, b with
   | TMI, TMI | TInt, TInt | TBool, TBool | TStr, TStr => true
+  | TList x, TList y => bty_eqb x y
   | _, _ => false
   end.
+
+Definition ty_of_bty (b : bty) : ty :=
+  match b with BMI => TMI | BInt => TInt | BBool => TBool | BStr => TStr end.
 
 (* numeric domain selector for the overloaded arithmetic of IntegerType *)
 Inductive nty : Type := NMI | NInt.
@@ -42,7 +56,15 @@ Inductive prim : Type :=
 | PToInt            (* x::Integer  on a MachineInteger  *)
 | PToMI             (* machine x   on an Integer (guarded: value in range) *)
 | PNot | PBAnd | PBOr | PBEq | PBNe   (* ~ /\ \/ = ~=  on Boolean (strict) *)
-| PCat | PLen | PSEq | PSNe.           (* + # = ~= on String *)
+| PCat | PLen | PSEq | PSNe            (* + # = ~= on String *)
+(* List(T) (sal_list.as): cons, first, rest, #, empty?, reverse (a copy), =, ~=, l.i (1-based) *)
+| PLCons (b : bty) | PLFirst (b : bty) | PLRest (b : bty) | PLLen (b : bty) | PLEmptyQ (b : bty)
+| PLRev (b : bty) | PLEq (b : bty) | PLNe (b : bty) | PLNth (b : bty).
+
+(* parametrised macros (langmacs.tex:43-47 `Op Parms ==> Body`), declared in the header:
+     DBL(x) ==> ((x) + (x));   SQR(x) ==> ((x) * (x));
+   macro expansion copies the argument text, so the argument is evaluated twice           *)
+Inductive mac : Type := MDbl (n : nty) | MSqr (n : nty).
 
 Inductive expr : Type :=
 | ELit (l : lit)
@@ -53,6 +75,8 @@ Inductive expr : Type :=
 | EIf (c a b : expr)                    (* langexpr.tex:780-792 *)
 | EAnd (a b : expr) | EOr (a b : expr)  (* short-circuit `and` / `or`, langexpr.tex:918-979 *)
 | ESeq (ss : list stmt) (e : expr)      (* { s1; ...; sn; e }  langexpr.tex:559-566 *)
+| EMac (m : mac) (e : expr)             (* DBL(e) / SQR(e) *)
+| EListLit (b : bty) (es : list expr)   (* ([e1, .., en]@List(T));  (empty@List(T)) when n = 0 *)
 with stmt : Type :=
 | SAssG (k : nat) (e : expr)            (* g<k> := e *)
 | SAssL (k : nat) (e : expr)            (* l<k> := e *)
@@ -60,11 +84,22 @@ with stmt : Type :=
 | SIf (c : expr) (a b : list stmt)      (* if c then { a } else { b } (non-value context, langexpr.tex:794-798) *)
 | SWhile (c : expr) (body : list stmt)  (* langloop.tex:66-72 *)
 | SFor (lo hi : expr) (body : list stmt)(* for l<depth>: MachineInteger in lo..hi repeat { body } *)
+| SForIn (b : bty) (l : expr) (body : list stmt)  (* for l<depth>: T in l repeat { body } (generator of List) *)
 | SBreak | SIterate                     (* langloop.tex:419,464 *)
 | SReturn (e : expr)                    (* langfuns.tex:144 *)
 | SExit (c : expr) (s : stmt)           (* c => s : leaves the enclosing braces after s (langexpr.tex:620-637) *)
 | SExitV (c : expr) (e : expr)          (* c => e : the enclosing value sequence yields e *)
-| SCall (name : nat) (args : list expr) (* call for effect, value dropped *).
+| SCall (name : nat) (args : list expr) (* call for effect, value dropped *)
+| SError (e : expr)                     (* error e : String -> Exit, "terminates the program" (langtdef.tex:685-689) *)
+| SNever                                (* never (langexpr.tex:1176-1196) *)
+| SThrow (k : nat)                      (* throw Ex<k>  (langtry.tex:73-82) *)
+| STry (body : list stmt) (hs : list (nat * list stmt))
+      (* try { body } catch E in { E has Ex<k>Type => { h }; ..; true => throw E; never }
+         (langtry.tex:94-142) *).
+
+(* user exception kinds Ex0 .. Ex<n_exn - 1>, declared in the header when used:
+   define Ex<k>Type: Category == with;  Ex<k>: Ex<k>Type == add;  (langtry.tex:265-266) *)
+Definition n_exn : nat := 3.
 
 Record fundef : Type := mkFun {
   fd_name : nat;
